@@ -26,9 +26,12 @@ def analyse(fn):
     KEEP = tuple({n.id for n in ast.walk(fn) if isinstance(n, ast.Name)})
     S = roles.stores(fn.body, defs, keep=KEEP, lv=False)
     ns = lambda t: t.replace(" ", "")
+    # text of an expression with the locals that merely name a fragment read through (`keep`: the locals whose ROLE the
+    # comparison is phrased in, e.g. the dof's (element, local index) list)
+    val = lambda node, keep=(): ns(unparse(roles.inline(node, defs, keep=tuple(keep))))
     # coarse support starts as the space's support
     allocs = [s for s in S if s.op == "=" and isinstance(s.tnode, ast.Name) and not s.loops and isinstance(s.vnode, ast.Call) and unparse(s.vnode.func).split(".")[-1] == "zeros"
-              and s.vnode.args and ns(unparse(s.vnode.args[0])) in ("%s.entity_count(0)" % G, "%s.number_of_elements" % G)]
+              and s.vnode.args and val(s.vnode.args[0]) in ("%s.entity_count(0)" % G, "%s.number_of_elements" % G)]
     if len(allocs) != 1:
         raise AnalysisError("%s: coarse support flag array (one entry per coarse element) not found" % FN)
     SUP = allocs[0].target
@@ -54,13 +57,13 @@ def analyse(fn):
     for st in ast.walk(lD[0]):
         if isinstance(st, ast.Assign) and isinstance(st.targets[0], ast.Name):
             names[st.targets[0].id] = st
-    ld = [n for n, st in names.items() if ns(unparse(st.value)) == "%s.global2local[%s]" % (CS, D)]
+    ld = [n for n, st in names.items() if val(st.value) == "%s.global2local[%s]" % (CS, D)]
     oke = False
     E = None
     if len(ld) == 1:
         L = ld[0]
         want = {"%s.data().element_edges[%s[0][1],%s[0][0]]" % (G, L, L), "%s.element_edges[%s[0][1],%s[0][0]]" % (G, L, L)}
-        e = [n for n, st in names.items() if ns(unparse(st.value)) in want]
+        e = [n for n, st in names.items() if val(st.value, (L,)) in want]
         if len(e) == 1:
             oke, E = True, e[0]
     out.append(("edge of the dof", oke, "no local holds element_edges[local index, element] of the dof's first (element, local index) pair", lD[0].lineno))
@@ -70,11 +73,12 @@ def analyse(fn):
     okv = False
     if len(lV) == 1:
         v = lV[0].target.id
-        vx = [n for n, st in names.items() if ns(unparse(st.value)) in ("%s.data().edges[%s,%s]" % (G, v, E), "%s.edges[%s,%s]" % (G, v, E))]
+        vx = [n for n, st in names.items() if val(st.value, (L, E)) in ("%s.data().edges[%s,%s]" % (G, v, E), "%s.edges[%s,%s]" % (G, v, E))]
         if len(vx) == 1:
             VX = vx[0]
-            st_ = [n for n, s in names.items() if ns(unparse(s.value)) == "%s.vertex_neighbors.indexptr[%s]" % (G, VX)]
-            en_ = [n for n, s in names.items() if roles.canon(s.value, roles._NoDefs()).replace(" ", "") == roles.canon(ast.parse("%s.vertex_neighbors.indexptr[%s+1]" % (G, VX), mode="eval").body, roles._NoDefs()).replace(" ", "")]
+            st_ = [n for n, s in names.items() if val(s.value, (L, E, VX)) == "%s.vertex_neighbors.indexptr[%s]" % (G, VX)]
+            en_ = [n for n, s in names.items() if roles.canon(roles.inline(s.value, defs, keep=(L, E, VX)), roles._NoDefs()).replace(" ", "")
+                   == roles.canon(ast.parse("%s.vertex_neighbors.indexptr[%s+1]" % (G, VX), mode="eval").body, roles._NoDefs()).replace(" ", "")]
             if len(st_) == 1 and len(en_) == 1:
                 lc = [l for l in ast.walk(lV[0]) if isinstance(l, ast.For) and ns(unparse(l.iter)) == "%s.vertex_neighbors.indices[%s:%s]" % (G, st_[0], en_[0]) and isinstance(l.target, ast.Name)]
                 if len(lc) == 1:
